@@ -134,16 +134,23 @@ func (c *Client) ProcessCommand(ctx context.Context, cmd *RequestCommand) (*Resp
 }
 
 func (c *Client) channelOK() bool {
+	return c.establishedChannel() != nil
+}
+
+// establishedChannel returns the current channel if it is established, or nil otherwise.
+// The check and the read are done at once, since the channel can be replaced meanwhile.
+func (c *Client) establishedChannel() *ClientChannel {
 	c.mu.RLock()
 	defer c.mu.RUnlock()
-	return c.channel != nil && c.channel.Established()
+	if c.channel != nil && c.channel.Established() {
+		return c.channel
+	}
+	return nil
 }
 
 func (c *Client) getOrBuildChannel(ctx context.Context) (*ClientChannel, error) {
-	if c.channelOK() {
-		c.mu.RLock()
-		defer c.mu.RUnlock()
-		return c.channel, nil
+	if channel := c.establishedChannel(); channel != nil {
+		return channel, nil
 	}
 
 	select {
@@ -157,10 +164,8 @@ func (c *Client) getOrBuildChannel(ctx context.Context) (*ClientChannel, error) 
 		<-c.lock
 	}()
 
-	if c.channelOK() {
-		c.mu.RLock()
-		defer c.mu.RUnlock()
-		return c.channel, nil
+	if channel := c.establishedChannel(); channel != nil {
+		return channel, nil
 	}
 
 	count := 0.0
